@@ -1,22 +1,32 @@
 (* C05 - TWCC feedback reports exactly what was received, in valid wire form.
-   Statements only; proofs are in Proofs/TwccChunkProofs.v and
-   Proofs/TwccFeedbackProofs.v.
+   Statements only; proofs are in Proofs/TwccChunkProofs.v,
+   Proofs/TwccFeedbackProofs.v, Proofs/ArrivalMapProofs.v and
+   Proofs/TwccRecorderProofs.v.
 
-   What is proved here (for every symbol list / every sequence of addReceived
-   calls, no bound): the chunk packer round trip, the per-packet wire-form
-   accounting (status count, one delta per received status with the right
-   type, representable deltas, marshalled length = header Length = content
-   rounded to 32 bits, padding bit), the 125 us bound on every decoded time,
-   that the first addReceived of a packet cannot fail, and that feedback
-   counters are consecutive over every Record/Build history.
+   Proved (no bound on list / history length anywhere):
+   * the chunk packer round trip, also on the wire;
+   * per packet: status count, one delta per received status with the right
+     type, representable deltas, marshalled length = header Length = content
+     rounded to 32 bits, padding bit; every decoded time within 125 us;
+     the first addReceived of a packet cannot fail;
+   * over every Record/Build history: consecutive feedback counters; the
+     arrival-map invariant (sorted, inside [begin,end), end-begin <= 2^15); the
+     Go loops FindNextAtOrAfter / RemoveOldPackets equal the closed forms the
+     model runs; the packets of one build cover consecutive ranges;
+   * C05_build per packet (C05_build_packet_partial): the packet built from
+     the start pointer reports exactly the retained arrivals of its range
+     [max(start, first-0x7FFE), new start) as received and everything else in
+     the range as not received.
 
-   What is NOT proved (validated by the correspondence + specification oracle
-   only, see design-notes/C05.md): the recorder-level composite C05_build
-   (which numbers a build covers, "every retained arrival not yet reported is
-   reported", received iff retained, consecutive ranges of one build) and
-   the refinement of the circular arrival buffer to the abstract map. *)
-From IV Require Import Base.Word Model.TwccChunk Model.TwccRecorder Proofs.TwccChunkProofs Proofs.TwccFeedbackProofs
-  Proofs.TwccRecorderProofs.
+   NOT proved (decided by the correspondence + specification oracle only, see
+   design-notes/C05.md): that a whole build leaves no retained arrival at or
+   after the start pointer unreported (loop completeness), the start-pointer
+   bookkeeping across Record/cull (that "retained" as the model's map keeps it
+   is the reading of the oracle), the 125 us bound restated per reported entry
+   at the history level (proved per addReceived), and the refinement of the
+   concrete circular buffer (cmap) to the abstract map. *)
+From IV Require Import Base.Word Model.TwccChunk Model.ArrivalMap Model.TwccRecorder Proofs.TwccChunkProofs
+  Proofs.TwccFeedbackProofs Proofs.ArrivalMapProofs Proofs.TwccRecorderProofs.
 
 (* chunk_roundtrip: feeding ANY list of status symbols (0 not received, 1 small
    delta, 2 large delta) through canAdd/encode/add and draining it as getRTCP
@@ -96,6 +106,76 @@ Theorem C05_fbcount_step : forall sender ops,
   fb_chain 0 (concat (rec_run sender rec_init ops)).
 Proof. intros sender ops. apply (run_counter sender ops rec_init). cbn. lia. Qed.
 Print Assumptions C05_fbcount_step.
+
+(* arrival_map invariant in every reachable recorder state: entries sorted by
+   number, inside [begin,end), and the window never exceeds 2^15 numbers *)
+Theorem C05_arrival_map_window : forall sender r, reachable sender r ->
+  am_inv (r_map r) /\ m_end (r_map r) - m_begin (r_map r) <= 32768.
+Proof. intros sender r H. pose proof (reachable_inv sender r H) as Hi. split; [exact Hi|apply Hi]. Qed.
+Print Assumptions C05_arrival_map_window.
+
+(* FindNextAtOrAfter / RemoveOldPackets as coded in Go (fuelled loops over the
+   sequence numbers) equal the closed forms the recorder model executes, in
+   every state satisfying the invariant (hence every reachable one) *)
+Theorem C05_find_loop_closed_form : forall m sn, am_inv m -> am_find_go m sn = am_find m sn.
+Proof. exact am_find_go_eq. Qed.
+Print Assumptions C05_find_loop_closed_form.
+
+Theorem C05_remove_loop_closed_form : forall m sn limit, am_inv m -> -1 <= limit ->
+  am_remove_old_go m sn limit = am_remove_old m sn limit.
+Proof. exact am_remove_old_go_eq. Qed.
+Print Assumptions C05_remove_loop_closed_form.
+
+(* C05_build, PARTIAL (one packet; see the header for what is missing):
+   maybeBuildFeedbackPacket(b, end) in a state satisfying the map invariant
+   either finds no received entry at or after Clamp(b) and leaves the start
+   pointer, or emits a packet whose base is max(b, first - 0x7FFE) (first =
+   the first retained arrival of the range), whose statuses - as a receiver
+   expands them from the wire - are exactly: the retained arrivals (time >= 0)
+   of the range below the new start pointer as received (1/2), in order, none
+   skipped, every other number not received (syms_of), plus < 7 padding zeros;
+   one delta per reported arrival; reference time = first arrival / 64 ms mod
+   2^24; and the new start pointer is base + count. *)
+Theorem C05_build_packet_partial : forall sender r b media fbc,
+  am_inv (r_map r) -> b < m_end (r_map r) ->
+  let m := r_map r in
+  match rec_maybe_build sender r b (m_end m) with
+  | (Some fb, next', _) =>
+      let p := fb_get_rtcp sender media fbc fb in
+      exists first t0 rep,
+        ent_first (fun en => snd en >=? 0) (range_ents m b) = Some (first, t0) /\
+        let baseU := Z.max b (first - 32766) in
+        Forall2 reports (filter (fun e => (snd e >=? 0) && (fst e <? next')) (range_ents m b)) rep /\
+        (exists k, (k < 7)%nat /\ statuses_wire (p_chunks p) = syms_of baseU rep ++ repeat 0 k) /\
+        p_count p = Z.of_nat (length (syms_of baseU rep)) /\
+        map fst (p_deltas p) = map snd rep /\
+        p_base p = baseU mod 65536 /\
+        p_ref p = (Z.quot t0 64000 mod 4294967296) mod 16777216 /\
+        next' = baseU + p_count p /\ first < next' <= m_end m
+  | (None, next', _) => next' = b
+  end.
+Proof. exact build_packet_spec. Qed.
+Print Assumptions C05_build_packet_partial.
+
+(* feedback packets of one build cover consecutive, non-overlapping ranges:
+   in every build of every Record/Build history each packet's base is the
+   previous packet's base plus its status count (mod 2^16) *)
+Theorem C05_build_consecutive_ranges : forall sender ops,
+  Forall (consec_from None) (rec_run sender rec_init ops).
+Proof. intros sender ops. apply run_consec. apply am_inv_empty. Qed.
+Print Assumptions C05_build_consecutive_ranges.
+
+(* non-vacuity of the hypotheses of C05_build_packet_partial: a reachable state
+   with something to report *)
+Example C05_build_nonvacuous :
+  let r := rec_record (rec_record rec_init 1 10 1000) 1 12 2000 in
+  am_inv (r_map r) /\ 10 < m_end (r_map r) /\
+  exists fb, rec_maybe_build 7 r 10 (m_end (r_map r)) = (Some fb, 13, 1).
+Proof.
+  cbv zeta. split; [apply (reachable_inv 7); repeat constructor|].
+  split; [vm_compute; reflexivity|]. eexists. vm_compute. reflexivity.
+Qed.
+Print Assumptions C05_build_nonvacuous.
 
 (* non-vacuity: the invariant holds initially and a successful add exists *)
 Example C05_inv_nonvacuous : fb_inv (fb_new 5 1000) [] /\ exists f', fb_add_received (fb_new 5 1000) 7 1300 = Some f'.
